@@ -329,16 +329,27 @@ def r8_6(ctx: Ctx) -> None:
     d = ix.method("SessionManager.resolve_outbound_transmission_details")
     gd = CFG(d.node)
     gw = nodes_calling(gd, ["get_default_gateway_mac_address", "get_default_gateway_network_interface"])
-    p = gd.path_avoiding(gw, lambda e: bool(e.label and e.label[0] == "cond" and unparse(e.label[1]) == "use_default_gateway" and e.label[2] is True))
     ld = LocalDefs(d.node)
-    defs = [unparse(v) for v, _ in ld.all_values("use_default_gateway") if v is not None]
+    # the flag: a local whose every binding is a boolean constant (both values occur) and whose true edge guards the gateway
+    # look-ups; the resolved MAC: the local bound to arp.get_arp_cache_mac_address(...) - found by shape, not by name
+    flags = []
+    for nm in ld.defs:
+        vals = [v for v, _ in ld.all_values(nm) if v is not None]
+        if vals and all(isinstance(v, ast.Constant) and isinstance(v.value, bool) for v in vals) and {v.value for v in vals} == {True, False}:
+            flags.append(nm)
+    flag = next((nm for nm in flags if gw and gd.path_avoiding(gw, lambda e, nm=nm: bool(
+        e.label and e.label[0] == "cond" and unparse(e.label[1]) == nm and e.label[2] is True)) is None), None)
+    p = None if flag else (gd.path_avoiding(gw, lambda e: False) if gw else None)
+    macs = {t.id for n in ast.walk(d.node) if isinstance(n, ast.Assign) and isinstance(n.value, ast.Call) and call_name(n.value) == "get_arp_cache_mac_address"
+            for t in n.targets if isinstance(t, ast.Name)}
+    defs = [unparse(v) for v, _ in ld.all_values(flag) if v is not None] if flag else []
     # the flag is lowered only where a MAC address was resolved on a local subnet
-    lowered = [n for n in gd.nodes if n.kind == "stmt" and isinstance(n.ast, ast.Assign) and any(unparse(t) == "use_default_gateway" for t in n.ast.targets)
+    lowered = [n for n in gd.nodes if n.kind == "stmt" and isinstance(n.ast, ast.Assign) and any(unparse(t) == flag for t in n.ast.targets)
                and isinstance(n.ast.value, ast.Constant) and n.ast.value.value is False]
-    pl = gd.path_avoiding(lowered, lambda e: bool(e.label and e.label[0] == "cond" and unparse(e.label[1]) == "dst_mac_address" and e.label[2] is True))
+    pl = gd.path_avoiding(lowered, lambda e: bool(e.label and e.label[0] == "cond" and unparse(e.label[1]) in macs and e.label[2] is True))
     ok = bool(gw) and p is None and bool(lowered) and pl is None
     ctx.record("R8.6", ctx.key(d, "gateway MAC/interface used exactly when no local resolution succeeded"), d.loc(), ok,
-               f"gateway look-ups only on the use_default_gateway edge; flag values {defs}; lowered only when a local MAC was resolved" if ok else
+               f"gateway look-ups only on the true edge of the flag `{flag}`; flag values {defs}; lowered only when a local MAC was resolved" if ok else
                "the default gateway is used for directly reachable hosts, or skipped for remote ones", path_text(p or pl))
     arps = [n for n in gd.nodes if any(call_name(c) == "get_arp_cache_mac_address" for c in node_calls(n))]
     pa = gd.path_avoiding(arps, lambda e: bool(e.label and e.label[0] == "cond" and e.label[2] is True and isinstance(e.label[1], ast.Compare)
